@@ -446,6 +446,8 @@ package css
 //@   loop * candidate[T] cpM(p) <= old(cpM(p))
 //@   requires[S] p.tt == AtKeywordToken
 //@   loop * decreases len(p.l.r.buf) - p.l.r.pos
+// the at-rule kind is looked up from the lower-cased name (the hash table holds lower-case names only)
+//@   callsite css.ToHash[F,C08] @lowered: forall(k, 0, len(arg0), !('A' <= arg0[k] && arg0[k] <= 'Z'))
 //@ func Parser.parseQualifiedRule
 //@   loop * candidate[T] first ==> p.tt == old(p.tt) && cpM(p) == old(cpM(p))
 //@   loop * candidate len(p.state) == old(len(p.state))
